@@ -43,11 +43,18 @@ def configs(tier, seed):
         for (w, m, J, h, wd) in d2:
             out.append(dict(kind='dwt2f', wave=w, mode=m, J=J, H=h, W=wd, B=B, C=C))
             out.append(dict(kind='dwt2i', wave=w, mode=m, J=J, H=h, W=wd, B=B, C=C))
-        for (w, m, J, h, wd) in [('db2', 'periodization', 2, 4, 8), ('haar', 'periodic', 1, 4, 4), ('bior1.3', 'periodization', 1, 6, 4)]:
+        for (w, m, J, h, wd) in [('db2', 'periodization', 2, 4, 8), ('haar', 'periodic', 1, 4, 4), ('bior1.3', 'periodization', 1, 6, 4), ('db2', 'periodization', 3, 8, 8)]:
             out.append(dict(kind='swt', wave=w, mode=m, J=J, H=h, W=wd, B=B, C=C))
         for (b, q, J, h, wd) in [('near_sym_a', 'qshift_a', 2, 6, 8), ('antonini', 'qshift_06', 1, 5, 4), ('legall', 'qshift_b', 2, 8, 8)][:2 if (B * C > 2 and tier == 'quick') else 3]:
             out.append(dict(kind='dtf', biort=b, qshift=q, J=J, H=h, W=wd, B=B, C=C))
             out.append(dict(kind='dti', biort=b, qshift=q, J=J, H=h, W=wd, B=B, C=C))
+    # wide and deep: many channels (grouped-convolution interleaving, channel/batch folding), four and five levels
+    out.append(dict(kind='dwt2f', wave='db2', mode='zero', J=1, H=4, W=4, B=2, C=17))
+    out.append(dict(kind='dwt1f', wave='db2', mode='periodization', J=2, N=8, B=1, C=33))
+    out.append(dict(kind='dtf', biort='near_sym_a', qshift='qshift_a', J=2, H=4, W=4, B=1, C=33))
+    out.append(dict(kind='dti', biort='near_sym_a', qshift='qshift_a', J=2, H=4, W=4, B=2, C=17))
+    out.append(dict(kind='dwt1f', wave='haar', mode='symmetric', J=5, N=40, B=2, C=2))
+    out.append(dict(kind='dwt2f', wave='haar', mode='periodization', J=4, H=16, W=16, B=2, C=1))
     # preludes: a different wavelet with the same filter length was used before, with the same (B, C)
     for (B, C) in [(2, 2), (1, 3)]:
         out.append(dict(kind='dwt1f', wave='coif1', mode='zero', J=2, N=13, B=B, C=C, prelude='db3'))
